@@ -585,7 +585,7 @@ def suites(tier, seed):
     from mc.engine import Suite
     nv = len(VERSIONS)
     common = dict(dates=2, cell_values=['absent', 1.0, 2.0, 'NaN'], versions=nv, stamps=3, read_times=len(READS_T), what=[-1, 0])
-    rule = ('every history of <= %d merges (non-decreasing stamps) of the %d versions over 2 dates x 3 stamps; from every state 16 reads vs the '
+    rule = ('every history of <= %d merges (non-decreasing stamps) of the %d versions (partial series over {d1, d2}, cells absent/1/2/NaN) x 3 stamps; from every state 16 reads vs the '
             'model, the prefix-store (no-leak) differential, unchanged-republish and input-snapshot checks, one re-merge (idempotence) edge per '
             'current version of the history, and a replay with a read after every merge; non-trivial = histories where some read at a T on or '
             'after the first stamp differs from the latest read, or containing a NaN-after-value, NaN-first, reverting or same-stamp publication')
@@ -597,8 +597,12 @@ def suites(tier, seed):
     else:
         first = VERSIONS
         depth = 3
+    n1 = len(ONE_DATE_VERSIONS)
     return [
         History('history', depth, rule % (depth, nv), dict(common), VERSIONS),
+        # one level deeper over a single date: a revert (1, 2, 1) / NaN-in-the-middle needs three publications of one date
+        History('onedate', depth + 1, rule % (depth + 1, n1) + '; versions restricted to date d1',
+                dict(common, dates=1, versions=n1), ONE_DATE_VERSIONS),
         Suite('listform', lambda: gen_listform(first), check_history,
               rule=lrule % (' and bi_merge(bi_merge(None, o), [p, q]) for every triple o, p, q' if first else ''),
               bounds=dict(common, list_length=2, merges_before_the_list=1 if first else 0)),
